@@ -47,8 +47,13 @@ func ShouldPut(
 			return !has, nil // deduplicated by CID
 		}
 		if !blockstoreUseWholeCIDs {
-			_, err := idx.Get(c)
-			if err == nil {
+			// Compare the whole multihash (code, length and digest), as Has does: the index is keyed
+			// by digest alone, and an equal digest under another hash function is another block.
+			has, err := idx.HasMultihash(c.Hash())
+			if err != nil {
+				return false, err
+			}
+			if has {
 				return false, nil // deduplicated by hash
 			}
 		}
